@@ -163,7 +163,7 @@ Section Transform.
     replace (u + 2 + 14)%nat with (u + 16)%nat by lia.
     replace (u + 3 + 14)%nat with (u + 1 + 16)%nat by lia.
     rewrite (Ws_step (u + 1)), (Ws_step u) by lia.
-    repeat (f_equal; try lia).
+    rewrite <- !Nat.add_assoc. cbn [Nat.add]. reflexivity.
   Qed.
 
   Lemma msg4_sched u1 u2 u3 u4 u5 :
@@ -179,7 +179,7 @@ Section Transform.
     replace (u1 + 2 + 14)%nat with (u1 + 16)%nat by lia.
     replace (u1 + 3 + 14)%nat with (u1 + 1 + 16)%nat by lia.
     rewrite (Ws_step (u1 + 1)), (Ws_step u1) by lia.
-    repeat (f_equal; try lia).
+    rewrite <- !Nat.add_assoc. cbn [Nat.add]. reflexivity.
   Qed.
 
   (* ---- the four MSG4 calls of one loop iteration ---- *)
